@@ -36,6 +36,21 @@ def gen(rng, tier):
     spec = C.maybe_from_json(rng, C.maybe_org_edit(rng, C.maybe_history(rng, C.forward_spec(rng, tier, focus), 0.3, reload_prob=0.3), 0.35))
     if rng.random() < 0.1:
         spec["cfg"]["unit_time"] = rng.choice([2, 3])  # the clock advances by 2 or 3 per step; absence lists name times
+    if rng.random() < 0.08 and not (spec.get("history") or {}).get("org_edit"):
+        # a skill entry that is not a number (an empty cell of an imported table): not a positive skill
+        m_ = spec["model"]
+        nan = float("nan")
+        for tm in m_["teams"]:
+            for w in tm["workers"]:
+                for i_ in tm["targets"]:
+                    if rng.random() < 0.4:
+                        w["skills"][m_["tasks"][i_].get("name", m_["tasks"][i_]["id"])] = nan
+        for wp in m_["wps"]:
+            for f in wp["facs"]:
+                for k_ in list(f.get("skills", {})):
+                    if rng.random() < 0.2:
+                        f["skills"][k_] = nan
+        spec["nan_skills"] = True
     return spec
 
 
@@ -75,7 +90,7 @@ def check_trace(res, tr):
                 if w not in st.worker:
                     res.add("unknown", "C04.unknown_worker", "task %s lists unknown worker %r at step %d" % (tid, w, k), k)
                     continue
-                if st.w_skill(w, tid) <= TOL:
+                if not st.w_skill(w, tid) > TOL:  # (also a skill that is not a number is not a positive skill)
                     res.add("skill", "C04.worker_without_skill", "step %d: worker %s allocated to %s has skill %r"
                             % (k, w, tid, st.w_skill(w, tid)), k)
                 if tid not in st.team_targets[st.worker_team[w]]:
@@ -115,14 +130,14 @@ def check_trace(res, tr):
                     w, f = ws[i], fs[i]
                     if f not in st.fac or w not in st.worker:
                         continue
-                    if st.f_skill(f, tid) <= TOL:
+                    if not st.f_skill(f, tid) > TOL:
                         res.add("fskill", "C04.facility_without_skill", "step %d: facility %s allocated to %s has skill %r" % (k, f, tid, st.f_skill(f, tid)), k)
                     if tid not in st.wp_targets[st.fac_wp[f]]:
                         res.add("wp", "C04.facility_workplace_not_targeting", "step %d: facility %s allocated to %s but its workplace does not target it" % (k, f, tid), k)
                     fx = st.tasks[tid].get("fixf")
                     if fx is not None and f not in fx:
                         res.add("fixf", "C04.facility_not_in_fixed_ids", "step %d: facility %s allocated to %s whose fixed facility IDs are %s" % (k, f, tid, fx), k)
-                    if st.w_fskill(w, f) <= TOL:
+                    if not st.w_fskill(w, f) > TOL:
                         res.add("operate", "C04.worker_cannot_operate_facility", "step %d: worker %s paired with facility %s on %s has facility skill %r"
                                 % (k, w, f, tid, st.w_fskill(w, f)), k)
                 for f in new_fs:
